@@ -4,12 +4,12 @@ CONSTANTS
   MaxCommits = 2
   SyncBeforeMeta = "always"
   SyncAfterMeta = TRUE
-  RegisterFirst = FALSE
+  RegisterFirst = TRUE
   OldDelDeletedEarly = FALSE
   GcProtectsBuilding = TRUE
   MaxFaults = 1
   StoreMetaFirst = FALSE
   KillWaits = TRUE
-  ReplaceStaleDel = TRUE
-INVARIANT OrphanIsF4Class
+  ReplaceStaleDel = FALSE
+INVARIANT NoSpuriousFailure
 CHECK_DEADLOCK FALSE
